@@ -138,11 +138,6 @@ def build_tools(impl):
 def main():
     chk = vlib.Check("C20")
     rng = chk.rng
-    kd = os.path.join(vlib.VERIF, "known_findings.d", "C20.json")
-    staged = json.load(open(kd)).get("findings", []) if os.path.exists(kd) else []
-    for f in staged:
-        if f.get("property") == "C20" and f.get("status", "open") == "open" and f["key"] not in [k["key"] for k in chk.known]:
-            chk.known.append(f)
     # 1. translator
     rc, tout = vlib.sh("python3 %s/translate/tr_cxx.py" % vlib.VERIF)
     trans_problems = [l for l in tout.splitlines() if l.startswith("PROBLEM")] + ([] if rc == 0 else ["PROBLEM translator exit %d: %s" % (rc, tout[-300:])])
